@@ -5,6 +5,8 @@
 #include "common.hpp"
 
 #include <complex>
+#include <fstream>
+#include <iterator>
 
 #include "libphysica/Linear_Algebra.hpp"
 #include "libphysica/Special_Functions.hpp"
@@ -74,6 +76,70 @@ struct PreMainProbe
 };
 static PreMainProbe g_probe_early __attribute__((init_priority(101)));
 static PreMainProbe g_probe_default;
+
+// ---------------------------------------------------------------------------------------------------
+// Fresh-process evaluation (class D, reference for call sequences): `<harness> --c17-eval Y|Psi l m theta phi` evaluates
+// ONE vector harmonic in a process that has made no other call of it and prints the six doubles; handled here,
+// before main() of common.hpp runs. `fresh_eval` runs the harness' own executable that way.
+// ---------------------------------------------------------------------------------------------------
+struct FreshEvalHook
+{
+	FreshEvalHook()
+	{
+		std::ifstream f("/proc/self/cmdline", std::ios::binary);
+		std::string all((std::istreambuf_iterator<char>(f)), std::istreambuf_iterator<char>());
+		std::vector<std::string> av;
+		size_t i = 0;
+		while(i < all.size())
+		{
+			size_t j = all.find('\0', i);
+			if(j == std::string::npos)
+				j = all.size();
+			av.push_back(all.substr(i, j - i));
+			i = j + 1;
+		}
+		if(av.size() == 7 && av[1] == "--c17-eval")
+		{
+			int l = std::atoi(av[3].c_str()), m = std::atoi(av[4].c_str());
+			double th = std::strtod(av[5].c_str(), nullptr), ph = std::strtod(av[6].c_str(), nullptr);
+			std::vector<std::complex<double>> v = av[2] == "Y" ? Vector_Spherical_Harmonics_Y(l, m, th, ph) : Vector_Spherical_Harmonics_Psi(l, m, th, ph);
+			std::string out = "FRESH";
+			for(auto z : v)
+				out += " " + hex(z.real()) + " " + hex(z.imag());
+			out += "\n";
+			if(write(1, out.data(), out.size()) < 0) {}
+			_exit(0);
+		}
+	}
+};
+static FreshEvalHook g_fresh_hook;
+
+static std::vector<std::string> fresh_eval(bool y, int l, int m, double th, double ph)
+{
+	char exe[4096];
+	ssize_t n = readlink("/proc/self/exe", exe, sizeof exe - 1);
+	if(n <= 0)
+		return {};
+	exe[n]			= 0;
+	std::string cmd = std::string("'") + exe + "' --c17-eval " + (y ? "Y" : "Psi") + " " + std::to_string(l) + " " + std::to_string(m) + " " + hex(th) + " " + hex(ph) + " 2>/dev/null";
+	FILE* p			= popen(cmd.c_str(), "r");
+	if(!p)
+		return {};
+	char buf[1024];
+	std::string line;
+	while(fgets(buf, sizeof buf, p))
+		line += buf;
+	pclose(p);
+	std::istringstream is(line);
+	std::string t;
+	std::vector<std::string> r;
+	is >> t;
+	if(t != "FRESH")
+		return {};
+	while(is >> t)
+		r.push_back(t);
+	return r;
+}
 
 // Hermitian product of two results taken by reference: both calls are arguments of ONE expression
 static std::complex<double> herm(const std::vector<std::complex<double>>& x, const std::vector<std::complex<double>>& y)
@@ -247,6 +313,38 @@ std::string handle(const std::string& op, Args& a)
 				o << now[i].first << now[i].second;
 				o << (i < g_probe_early.log.size() ? g_probe_early.log[i].second : NAN);
 				o << (i < g_probe_default.log.size() ? g_probe_default.log[i].second : NAN);
+			}
+		});
+	}
+	if(op == "c17.vshseq")
+	{
+		// consecutive calls in ONE process; every result next to the result of the same call in a fresh process
+		size_t n = a.u64();
+		std::vector<bool> ky(n);
+		std::vector<int> l(n), m(n);
+		std::vector<double> th(n), ph(n);
+		for(size_t i = 0; i < n; i++)
+		{
+			ky[i] = a.tok() == "Y";
+			l[i]  = a.i64();
+			m[i]  = a.i64();
+			th[i] = a.dbl();
+			ph[i] = a.dbl();
+		}
+		a.end();
+		return run([&](Out& o) {
+			std::vector<std::vector<std::complex<double>>> res;
+			for(size_t i = 0; i < n; i++)
+				res.push_back(ky[i] ? Vector_Spherical_Harmonics_Y(l[i], m[i], th[i], ph[i]) : Vector_Spherical_Harmonics_Psi(l[i], m[i], th[i], ph[i]));
+			for(size_t i = 0; i < n; i++)
+			{
+				o << res[i].size();
+				for(auto z : res[i])
+					putc(o, z);
+				std::vector<std::string> f = fresh_eval(ky[i], l[i], m[i], th[i], ph[i]);
+				o << f.size();
+				for(auto& t : f)
+					o << t;
 			}
 		});
 	}
